@@ -350,8 +350,39 @@ RedexCase(n, sd) ==
             ELSE IF w = 2 THEN "not (" \o core \o ")"
             ELSE core]
 
+
+\* ---------------------------------------------------------------- theories around the completable fragment (C04 b)
+THeads == <<"p(X)", "p(X)", "p(X, Y)", "p(1)", "p(X, X)", "p(X$i)", "p(X, X$i)", "p(a)", "p(X$i + 1)", "#false", "#true", "s",
+            "p(Y)", "p(Y, X)", "r(X)", "p(X)", "p(X, Y)", "#false">>
+TBodies == <<"q(X)", "q(X) and r(Y)", "#true", "exists Z t(X, Z)", "X = 1", "not q(X)", "q(X) and X > Y", "q(Z) and t(Z, X)",
+             "q(X$i)", "q(X) and not p(X)", "q(Y)", "t(X, Y)">>
+TVarsOf(h, b) ==   \* the variables that a correct universal closure binds, as text (superset is fine: orphans are legal)
+  "X Y Z X$i"
+TFormula(sd) ==
+  LET h == Pick(sd, THeads)
+      b == Pick(Nx(sd), TBodies)
+      w == Val(Nx(Nx(sd))) % 20
+      core == IF w % 2 = 0 THEN "(" \o b \o " -> " \o h \o ")" ELSE "(" \o h \o " <- " \o b \o ")"
+  IN [s |-> IF w < 12 THEN "forall X Y Z X$i " \o core
+            ELSE IF w < 14 THEN "forall X Z X$i " \o core               \* Y possibly free
+            ELSE IF w < 15 THEN "forall X (forall Y Z X$i " \o core \o ")"   \* nested prefix
+            ELSE IF w < 16 THEN h                                       \* a bare head
+            ELSE IF w < 17 THEN "forall X Y X$i (" \o h \o ")"
+            ELSE IF w < 18 THEN "forall X Y Z X$i (" \o b \o " <-> " \o h \o ")"
+            ELSE IF w < 19 THEN "forall Y Z X$i " \o core               \* X possibly free
+            ELSE "forall X Y Z X$i (" \o core \o " and #true)",
+      sd |-> Nx(Nx(Nx(sd)))]
+RECURSIVE TFormulas(_, _)
+TFormulas(sd, k) == IF k = 0 THEN [s |-> "", sd |-> sd]
+                    ELSE LET f == TFormula(sd) r == TFormulas(f.sd, k - 1) IN [s |-> f.s \o ". " \o r.s, sd |-> r.sd]
+TheoryCase(n, sd) ==
+  LET k == 1 + (Val(sd) % 3)
+      t == TFormulas(Nx(sd), k)
+  IN [id |-> "th" \o ToString(n), theory |-> t.s, inputs |-> IF Val(t.sd) % 3 = 0 THEN <<"q/1">> ELSE <<>>]
+
 Case(n, sd) ==
   CASE Mode = "program" -> ProgramCase(n, sd)
+    [] Mode = "theory" -> TheoryCase(n, sd)
     [] Mode = "sysrule" -> SysCase(n)
     [] Mode = "sysnest" -> NestCase(n)
     [] Mode = "sysnames" -> NameCase(n)
